@@ -54,7 +54,7 @@ func (e *engine) addCompiledModule(module *wasm.Module, cm *compiledModule) (err
 }
 
 func (e *engine) getCompiledModule(module *wasm.Module, listeners []experimental.FunctionListener, ensureTermination bool) (cm *compiledModule, ok bool, err error) {
-	cm, ok = e.getCompiledModuleFromMemory(module)
+	cm, ok = e.retainCompiledModuleInMemory(module)
 	if ok {
 		return
 	}
@@ -99,11 +99,26 @@ func (e *engine) addCompiledModuleToMemory(m *wasm.Module, cm *compiledModule) e
 	if e.compiledModules == nil { // Close was called, possibly while this module was being compiled.
 		return errors.New("engine is already closed")
 	}
+	if existing, ok := e.compiledModules[m.ID]; ok { // a concurrent compilation of the same ID won: share its entry.
+		existing.refCount++
+		return nil
+	}
+	cm.refCount = 1
 	e.compiledModules[m.ID] = cm
 	if len(cm.executable) > 0 {
 		e.addCompiledModuleToSortedList(cm)
 	}
 	return nil
+}
+
+// retainCompiledModuleInMemory returns the entry of the module if it is already compiled, counting one more user of it.
+func (e *engine) retainCompiledModuleInMemory(module *wasm.Module) (cm *compiledModule, ok bool) {
+	e.mux.Lock()
+	defer e.mux.Unlock()
+	if cm, ok = e.compiledModules[module.ID]; ok {
+		cm.refCount++
+	}
+	return
 }
 
 func (e *engine) getCompiledModuleFromMemory(module *wasm.Module) (cm *compiledModule, ok bool) {
